@@ -383,3 +383,81 @@ fn replay_f_c35a_a_storage_error_is_not_reported_as_absent() {
         "read_from_state_machine returned None for an existing key whose read failed: the client is told the key is absent"
     );
 }
+
+// ---------------------------------------------------------------------------------------------
+// F-C06a  the commit handler forwards entries to the state-machine worker from `last_applied + 1`,
+//         but `last_applied` only moves when the (asynchronous) worker has applied them: a second
+//         commit notification that arrives before the worker has caught up forwards the same
+//         entries again, and the worker applies every batch it receives
+// ---------------------------------------------------------------------------------------------
+#[derive(Debug, Clone, Copy)]
+struct RealApplyPathConfig;
+impl TypeConfig for RealApplyPathConfig {
+    type R = MockRaftLog;
+    type SE = MockStorageEngine;
+    type E = MockElectionCore<Self>;
+    type TR = MockTransport<Self>;
+    type SM = MockStateMachine;
+    type M = MockMembership<Self>;
+    type REP = MockReplicationCore<Self>;
+    type C = MockCommitHandler;
+    type SMH = crate::state_machine_handler::DefaultStateMachineHandler<Self>;
+    type SNP = MockSnapshotPolicy;
+    type PE = MockPurgeExecutor;
+}
+
+#[tokio::test]
+async fn replay_f_c06a_no_index_is_handed_to_the_apply_worker_twice() {
+    use crate::commit_handler::{CommitHandlerDependencies, DefaultCommitHandler};
+    use crate::state_machine_handler::{DefaultStateMachineHandler, StateMachineHandler};
+    use d_engine_proto::common::EntryPayload;
+    // the REAL state machine handler (pending_range / update_pending / last_applied), nothing applied yet
+    let smh = Arc::new(DefaultStateMachineHandler::<RealApplyPathConfig>::new_without_watch(
+        1,
+        0,
+        Arc::new(MockStateMachine::new()),
+        crate::test_utils::snapshot_config(std::path::PathBuf::from("/tmp/verif_replay_f_c06a")),
+        MockSnapshotPolicy::new(),
+    ));
+    let mut raft_log = MockRaftLog::new();
+    raft_log.expect_get_entries_range().returning(|range| {
+        Ok(range
+            .map(|index| Entry { index, term: 1, payload: Some(EntryPayload::command(bytes::Bytes::from_static(b"x"))) })
+            .collect())
+    });
+    let (sm_apply_tx, mut sm_apply_rx) = tokio::sync::mpsc::unbounded_channel();
+    let (internal_event_tx, _internal_event_rx) = tokio::sync::mpsc::unbounded_channel();
+    let (_commit_tx, commit_rx) = tokio::sync::mpsc::unbounded_channel();
+    let (_shutdown_tx, shutdown_rx) = tokio::sync::watch::channel(());
+    let handler = DefaultCommitHandler::<RealApplyPathConfig>::new(
+        1,
+        0,
+        1,
+        CommitHandlerDependencies {
+            state_machine_handler: smh.clone(),
+            raft_log: Arc::new(raft_log),
+            membership: Arc::new(MockMembership::new()),
+            internal_event_tx,
+            sm_apply_tx,
+            shutdown_signal: shutdown_rx,
+            max_batch_size: 10,
+        },
+        commit_rx,
+    );
+    // commit index 2 is announced; the worker is busy (it has not applied anything yet) ...
+    smh.update_pending(2);
+    handler.process_batch().await.unwrap();
+    // ... when commit index 3 is announced
+    smh.update_pending(3);
+    handler.process_batch().await.unwrap();
+    let mut forwarded: Vec<u64> = vec![];
+    while let Ok(batch) = sm_apply_rx.try_recv() {
+        forwarded.extend(batch.iter().map(|e| e.index));
+    }
+    let mut seen = HashSet::new();
+    let twice: Vec<u64> = forwarded.iter().copied().filter(|i| !seen.insert(*i)).collect();
+    assert!(
+        twice.is_empty(),
+        "indexes {twice:?} were handed to the apply worker twice (forwarded in this order: {forwarded:?}); the worker applies every batch it receives"
+    );
+}
